@@ -272,7 +272,8 @@ impl C11 {
 		// next deserialization is that of the bytes that follow, so it is comparable exactly when both paths stand at the
 		// same position — which is the case after an error raised by the CALLER's type on a leaf that both paths had
 		// read completely (a refused string, an alternative hint that does not fit). Whatever a failed read leaves
-		// behind in the reader's state must not leak into the next value.
+		// behind in the reader's state must not leak into the next VALUE (whether a state that has reported an error goes on
+		// at all is its own business: outcome classes are not compared after an error).
 		if !out.failed() && slice_out.items.iter().any(|x| x.is_err()) {
 			out.count("long_stream_continued_after_errors", 1);
 			let attempts = 2 * n as usize + 8;
@@ -313,13 +314,12 @@ impl C11 {
 								return;
 							}
 						}
-						(Ok(_), Err(e)) => {
-							out.fail("C11:stream:slice-ok-reader-err:after-an-error", format!("plan {}: attempt #{i} (both paths at byte {}): slice decoded, reader failed with: {e}", kind.label(), if i > 0 { s.positions[i - 1] } else { 0 }));
-							return;
-						}
-						(Err(e), Ok(v)) => {
-							out.fail("C11:stream:slice-err-reader-ok:after-an-error", format!("plan {}: attempt #{i}: slice failed with {e}, reader decoded {v:?}", kind.label()));
-							return;
+						// (a state that has reported an error may legitimately refuse to go on, or go on differently: the
+						// property speaks of one deserialization of one byte string. Only VALUES are held to it here: what
+						// both paths decode from the same position must be the same value.)
+						(Ok(_), Err(_)) | (Err(_), Ok(_)) => {
+							out.count("long_stream_outcome_class_differs_after_an_error", 1);
+							break;
 						}
 						(Err(_), Err(_)) => {}
 					}
@@ -539,7 +539,7 @@ impl Prop for C11 {
 		 legal-but-unusual spellings (padded varints, negative-count blocks), fault-derived damage (bit flips, replacements, truncation, insertions) and random bytes; \
 		 container scenarios are whole files (valid, truncated or damaged) of every codec. For each scenario the slice path runs once and the reader path runs under every refill plan: \
 		 every Fixed(k) for k=1..len (len<=64; sampled above), one cut after every byte inside every multi-byte token, random cyclic plans, BufReader capacities 1..16. \
-		 An evaluation is one decode. A case is non-trivial when a refill boundary exists; distinct = distinct (target, outcome class, token kind straddling the first boundary, offset inside it, byte-wise/scratch path used, generator kind, mode). One scenario in 300 is a LONG stream: 250-1200 datums (size patterns as in C05) encoded one after the other and decoded through ONE DeserializerState per path (slice, and eight reader plans): the two paths must agree datum by datum and, when all decode, on the bytes consumed. When such a stream holds datums that the caller's type refuses (the refusing target, an alternative hint that does not fit), decoding GOES ON after the error on the same state, and the next attempt is compared whenever both paths stand at the same byte position. Targets: capture, alternative hints (eight per node kind: char, newtype struct, option, unit struct, enum, other integer / float widths, identifier, any ...), masked (some fields ignored), ignored, blind, hash. One datum scenario in forty is deliberately large-scale (fields around 8 KiB and 64 KiB and above, two- and three-byte counts and indices, deep lists)."
+		 An evaluation is one decode. A case is non-trivial when a refill boundary exists; distinct = distinct (target, outcome class, token kind straddling the first boundary, offset inside it, byte-wise/scratch path used, generator kind, mode). One scenario in 300 is a LONG stream: 250-1200 datums (size patterns as in C05) encoded one after the other and decoded through ONE DeserializerState per path (slice, and eight reader plans): the two paths must agree datum by datum and, when all decode, on the bytes consumed. When such a stream holds datums that the caller's type refuses (the refusing target, an alternative hint that does not fit), decoding GOES ON after the error on the same state, and whenever both paths stand at the same byte position and both decode the next datum, the two VALUES (and the bytes consumed) must agree. Targets: capture, alternative hints (eight per node kind: char, newtype struct, option, unit struct, enum, other integer / float widths, identifier, any ...), masked (some fields ignored), ignored, blind, hash. One datum scenario in forty is deliberately large-scale (fields around 8 KiB and 64 KiB and above, two- and three-byte counts and indices, deep lists)."
 	}
 	fn assumptions(&self) -> Vec<String> {
 		vec![
